@@ -205,12 +205,26 @@ def run_cases(cases, rng, label):
             want = (typ, val, obf, len(pre), len(pre) + len(enc))
             got = [(h.type, h.value, h.obfuscation, h.start, h.end) for h in hits]
             if want in got:
-                continue
+                if len(distinct) % 5:
+                    continue
+                # the same expression a second time in the same text: each occurrence is reported, at its own offset (no de-duplication by value or argument)
+                mid = b" ;\n "
+                data = pre + enc + mid + enc + post
+                n += 1
+                try:
+                    got = [(h.type, h.value, h.obfuscation, h.start, h.end) for h in f(data)]
+                except Exception as e:  # noqa: BLE001
+                    got = [f"{type(e).__name__}: {e}"]
+                o2 = len(pre) + len(enc) + len(mid)
+                want2 = (typ, val, obf, o2, o2 + len(enc))
+                if want in got and want2 in got:
+                    continue
+                want = want2 if want in got else want
             obs = f"{fname}({data!r}): expected a node {want!r}, got {got!r}"
         key = f"{label}:{fname}"
         if sum(1 for x in failures if x["id"].startswith(key)) < 2:
             failures.append({"id": f"{key}: {enc[:24]!r}", "function": f"multidecoder.decoders.{modname}.{fname}", "obligation": f"bounded/{label}-value",
-                             "case": {"oracle": label, "module": modname, "fn": fname, "data": data.hex(), "want": [typ, val.hex(), obf, len(pre), len(pre) + len(enc)]}, "observed": obs})
+                             "case": {"oracle": label, "module": modname, "fn": fname, "data": data.hex(), "want": [want[0], want[1].hex(), want[2], want[3], want[4]] if hits is not None else [typ, val.hex(), obf, len(pre), len(pre) + len(enc)]}, "observed": obs})
     return {"evaluations": n, "distinct_nontrivial": len(distinct), "failures": failures, "samples": [{"fn": c[1], "encoded": c[2][:60].hex()} for c in cases[:2]]}
 
 
